@@ -45,32 +45,34 @@ def _is_norm(t):
     mut.replace_expr('mnemonic', 'Mnemonic.sanitize_mnemonic', 'normalize_string(words)', 'words', 'sanitize_mnemonic: sentence not normalised'),
     mut.const('encoding', 'normalize_string', 'NFKD', 'NFKC', 'normalize_string: NFKC instead of NFKD'),
     mut.replace_expr('mnemonic', 'Mnemonic.to_seed', "bytes(words, 'utf8')", "bytes(words, 'latin1')", 'to_seed: sentence encoded latin1'),
+    mut.replace_stmt('mnemonic', 'Mnemonic.to_seed', 'words = self.sanitize_mnemonic(words)', 'raw = words\nwords = self.sanitize_mnemonic(words)\nif validate:\n    words = raw', 'to_seed: raw sentence used on the validate=True path'),
 ])
 def nfkd(ctx):
     """Mnemonic.to_seed: PBKDF2 password = utf8(sanitize_mnemonic(words)), salt = b'mnemonic' + utf8(normalize_string(passphrase));
     sanitize_mnemonic returns only text derived from normalize_string(words); normalize_string is unicodedata NFKD."""
     q = 'mnemonic:Mnemonic.to_seed'
-    fn, exits = _run(ctx, 'to_seed', {'words': S(('var', 'words'), 'str'), 'password': S(('var', 'password'), 'str'), 'validate': False})
-    rets = [e for e in exits if e.kind == 'return']
-    if len(rets) != 1:
-        ctx.undecided('to_seed return paths: %d' % len(rets))
-    rv = term(rets[0].value)
-    if not (isinstance(rv, tuple) and rv[0] == 'mcall' and rv[2] == 'pbkdf2_hmac'):
-        ctx.undecided('to_seed does not return hashlib.pbkdf2_hmac(...)')
-    kw = dict(rv[4])
-    names = ['hash_name', 'password', 'salt', 'iterations']
-    for i, a in enumerate(rv[3]):
-        kw.setdefault(names[i], a)
-    ctx.saw('to_seed -> pbkdf2_hmac(%s)' % ', '.join('%s=%s' % (k, show(v)[:70]) for k, v in sorted(kw.items())))
-    pw, salt = kw.get('password'), kw.get('salt')
-    exp_pw = ('encode', ('mcall', SELF, 'sanitize_mnemonic', (('var', 'words'),), ()), 'utf8')
-    ctx.require(pw == exp_pw or pw == ('encode', exp_pw[1], 'utf-8'), q, 'PBKDF2 password is %s, expected utf8(sanitize_mnemonic(words))' % show(pw)[:120], fn,
-                'the mnemonic sentence must be NFKD-normalised before key stretching')
-    parts = flatten_cat(salt)
-    ok = len(parts) == 2 and parts[0] == b'mnemonic' and parts[1] in (('encode', ('call', 'normalize_string', (('var', 'password'),), ()), 'utf8'),
-                                                                      ('encode', ('call', 'normalize_string', (('var', 'password'),), ()), 'utf-8'))
-    ctx.require(ok, q, 'PBKDF2 salt is %s, expected b"mnemonic" + utf8(NFKD(passphrase))' % show(salt)[:140], fn,
-                'BIP39: passphrase must be NFKD-normalised; otherwise NFC/NFKD spellings of one passphrase give different seeds')
+    for validate in (True, False):
+        fn, exits = _run(ctx, 'to_seed', {'words': S(('var', 'words'), 'str'), 'password': S(('var', 'password'), 'str'), 'validate': validate})
+        rets = [e for e in exits if e.kind == 'return']
+        if len(rets) != 1:
+            ctx.undecided('to_seed return paths: %d' % len(rets))
+        rv = term(rets[0].value)
+        if not (isinstance(rv, tuple) and rv[0] == 'mcall' and rv[2] == 'pbkdf2_hmac'):
+            ctx.undecided('to_seed does not return hashlib.pbkdf2_hmac(...)')
+        kw = dict(rv[4])
+        names = ['hash_name', 'password', 'salt', 'iterations']
+        for i, a in enumerate(rv[3]):
+            kw.setdefault(names[i], a)
+        ctx.saw('to_seed(validate=%s) -> pbkdf2_hmac(%s)' % (validate, ', '.join('%s=%s' % (k, show(v)[:70]) for k, v in sorted(kw.items()))))
+        pw, salt = kw.get('password'), kw.get('salt')
+        exp_pw = ('encode', ('mcall', SELF, 'sanitize_mnemonic', (('var', 'words'),), ()), 'utf8')
+        ctx.require(pw == exp_pw or pw == ('encode', exp_pw[1], 'utf-8'), q, 'validate=%s: PBKDF2 password is %s, expected utf8(sanitize_mnemonic(words))' % (validate, show(pw)[:120]), fn,
+                    'the mnemonic sentence must be NFKD-normalised before key stretching')
+        parts = flatten_cat(salt)
+        ok = len(parts) == 2 and parts[0] == b'mnemonic' and parts[1] in (('encode', ('call', 'normalize_string', (('var', 'password'),), ()), 'utf8'),
+                                                                          ('encode', ('call', 'normalize_string', (('var', 'password'),), ()), 'utf-8'))
+        ctx.require(ok, q, 'validate=%s: PBKDF2 salt is %s, expected b"mnemonic" + utf8(NFKD(passphrase))' % (validate, show(salt)[:140]), fn,
+                    'BIP39: passphrase must be NFKD-normalised; otherwise NFC/NFKD spellings of one passphrase give different seeds')
     q = 'mnemonic:Mnemonic.sanitize_mnemonic'
     fn, exits = _run(ctx, 'sanitize_mnemonic', {'words': S(('var', 'words'), 'str')})
     for e in exits:
@@ -268,3 +270,56 @@ def entropy_domain(ctx):
                 ctx.violate(q, 'default call raises when %s%s' % ('' if pol else 'not ', show(t)[:200].replace(str(0xFFFFFFFFFFFFFFFFFFFFFFFFFFFFFFFEBAAEDCE6AF48A03BBFD25E8CD0364141), 'secp256k1_n')), e.node,
                             'BIP39 defines a sentence for every entropy, including all-zero and all-ones')
     ctx.saw('to_mnemonic exits: %s' % [e.kind for e in exits])
+
+
+@PROP.obligation('C14.word-index', canaries=[
+    mut.replace_expr('mnemonic', 'Mnemonic.to_entropy', 'self._wordlist.index(word)', 'bisect.bisect_left(self._wordlist, word)', 'to_entropy: binary search in lists that are not sorted'),
+    mut.replace_expr('mnemonic', 'Mnemonic.to_mnemonic', 'self._wordlist[i]', 'self._wordlist[i - 1]', 'to_mnemonic: off-by-one word index'),
+])
+def word_index(ctx):
+    """The word <-> index mapping is the position in the instance word list in both directions: to_entropy uses
+    self._wordlist.index(word) (an order-dependent search such as bisect is only correct on code-point-sorted lists, which
+    most bundled lists are not), to_mnemonic uses self._wordlist[i]."""
+    wl = ('attr', SELF, '_wordlist')
+    q = 'mnemonic:Mnemonic.to_entropy'
+    fn, exits = _run(ctx, 'to_entropy', {'words': S(('var', 'words'), 'str'), 'includes_checksum': True})
+    rets = [e for e in exits if e.kind == 'return']
+    look = []
+    for e in rets:
+        for s_ in subterms(('w', term(e.value))):
+            if isinstance(s_, tuple) and s_[0] == 'after-loop' and s_[3] == 'wi':
+                look.append(s_[4])
+    if not look:
+        ctx.undecided('to_entropy: the index list built from the words was not found')
+    for l in set(look):
+        ctx.saw('to_entropy index list element: %s' % show(l)[:120])
+        ok = isinstance(l, tuple) and l[0] == 'list' and len(l) == 2 and isinstance(l[1], tuple) and l[1][:3] == ('mcall', wl, 'index') and isinstance(l[1][3][0], tuple) and l[1][3][0][0] == 'elem'
+        if ok:
+            continue
+        order_dep = [x for x in subterms(l) if isinstance(x, tuple) and x[0] in ('call', 'mcall') and any('bisect' in str(y) or 'searchsorted' in str(y) for y in x[:3])]
+        if order_dep:
+            d = os.path.join(ctx.repo.root, 'bitcoinlib', 'wordlist')
+            unsorted_lists = []
+            for f in sorted(os.listdir(d)):
+                if f.endswith('.txt'):
+                    words = [w.strip() for w in open(os.path.join(d, f), encoding='utf-8')]
+                    if words != sorted(words):
+                        unsorted_lists.append(f)
+            if unsorted_lists:
+                ctx.violate(q, 'word index found by an order-dependent search (%s) but %d word lists are not sorted: %s' % (show(order_dep[0])[:60], len(unsorted_lists), ', '.join(unsorted_lists)), fn,
+                            'valid sentences in those languages are rejected or mapped to another entropy')
+            continue
+        ctx.undecided('to_entropy: word lookup not recognised: %s' % show(l)[:100])
+    q = 'mnemonic:Mnemonic.to_mnemonic'
+    fn, exits = _run(ctx, 'to_mnemonic', {'data': S(('var', 'data'), 'bytes')})
+    reps = []
+    for e in exits:
+        if e.kind == 'return':
+            for s_ in subterms(('w', term(e.value))):
+                if isinstance(s_, tuple) and s_[0] == 'repeat' and any(x == wl for x in subterms(s_[3])):
+                    reps.append(s_)
+    if not reps:
+        ctx.undecided('to_mnemonic: word selection not found')
+    for r_ in set(reps):
+        ctx.saw('to_mnemonic word selection: %s' % show(r_[3])[:100])
+        ctx.require(r_[3] == ('index', wl, ('elem', r_[1], r_[2])), q, 'word chosen for index i is %s, expected self._wordlist[i]' % show(r_[3])[:100], fn)
